@@ -12,6 +12,8 @@ mod stats;
 mod c07;
 mod c10;
 mod c15;
+mod targets;
+mod c02;
 
 use util::Out;
 
@@ -40,6 +42,7 @@ fn main() {
         "C08" => c07::run_c08(&mut out),
         "C10" => c10::run(&mut out),
         "C15" => c15::run(&mut out),
+        "C02" => c02::run(&mut out),
         _ => {
             eprintln!("unknown property {prop}");
             std::process::exit(2);
